@@ -206,3 +206,37 @@ Check C11_instance_order_irrelevant :
     Permutation b_items_dir items' ->
     forall p, fs_get (fst (run_batch N b_xform false 0 b_items_dir f)) p =
               fs_get (fst (run_batch N b_xform false 0 items' f)) p.
+
+Theorem C11_collect_single_file :
+  forall (f : fs) (input out : path) (items : list bitem),
+    fs_is_file f input = true ->
+    collect f input (Some out) = Some items ->
+    exists o, items = [(input, o)] /\
+              match output_decision (fs_is_dir f out) (fs_is_file f out) (is_some (path_extension out)) with
+              | AsFile => o = out
+              | InsideDirectory => exists n, file_name input = Some n /\ o = (out ++ [n])%list
+              end.
+Proof. exact collect_single_file. Qed.
+Print Assumptions C11_collect_single_file.
+Check C11_collect_single_file :
+  forall (f : fs) (input out : path) (items : list bitem),
+    fs_is_file f input = true ->
+    collect f input (Some out) = Some items ->
+    exists o, items = [(input, o)] /\
+              match output_decision (fs_is_dir f out) (fs_is_file f out) (is_some (path_extension out)) with
+              | AsFile => o = out
+              | InsideDirectory => exists n, file_name input = Some n /\ o = (out ++ [n])%list
+              end.
+
+Theorem C11_collect_single_in_place :
+  forall (f : fs) (input : path) (items : list bitem),
+    fs_is_file f input = true -> fs_is_dir f input = false ->
+    collect f input None = Some items ->
+    forall s o, In (s, o) items <-> (s = input /\ o = input /\ is_lua_path input = true).
+Proof. exact collect_single_in_place. Qed.
+Print Assumptions C11_collect_single_in_place.
+Check C11_collect_single_in_place :
+  forall (f : fs) (input : path) (items : list bitem),
+    fs_is_file f input = true -> fs_is_dir f input = false ->
+    collect f input None = Some items ->
+    forall s o, In (s, o) items <-> (s = input /\ o = input /\ is_lua_path input = true).
